@@ -891,3 +891,54 @@ def rule_subject_hashed(check, rule):
                         witness='class U: __hash__ = None; def __call__(self, a): ...   sigtools.signature(U()) raises TypeError')
     if not sites:
         check.holds(rule, '-', 'retrieval does not hash the object it inspects', key='hash-subject|none', nontrivial=False)
+
+
+def rule_validation_converted(check, rule):
+    """C15.R13 (D43): "IncompatibleSignatures from merge and embed for role-consistent inputs".  The steps that combine the parameters do not
+    check the names of what they produce; the combined list is validated only where the result is constructed (inspect.Signature raises a
+    plain ValueError for two parameters of one name or a wrong order).  In merge and embed, every call whose closure reaches such a validating
+    construction -- `<sig>.replace(parameters=...)` or a Signature constructor given parameters -- or raises ValueError explicitly lies in a
+    `try` whose ValueError handler raises IncompatibleSignatures."""
+    repo = check.repo
+    cg, es = get_escape(check)
+
+    def validates(fi):
+        for c in _own_nodes(fi.node):
+            if isinstance(c, ast.Call):
+                if isinstance(c.func, ast.Attribute) and c.func.attr == 'replace' and any(k.arg == 'parameters' for k in c.keywords):
+                    return True
+                if norm(c.func).split('.')[-1] in ('Signature', 'UpgradedSignature') and (c.args or any(k.arg == 'parameters' for k in c.keywords)):
+                    return True
+        return False
+    validators = set(fi.key for fi in repo.all_funcs() if validates(fi) and not (fi.cls is not None and fi.name in ('replace', '__init__', '_upgrade')))
+    n = 0
+    for op in ('_signatures:merge', '_signatures:embed'):
+        fi = repo.func(op)
+        check.analysed(fi)
+        for cs in cg.sites.get(fi.key, []):
+            for callee in cs.callees:
+                clo = set(cg.closure([callee.key]))
+                reach = sorted(clo & validators)
+                explicit = [x for x in es.of(callee.key) if x.kind == 'raise' and is_valueerror(es, x.cls)
+                            and not es.interp.exc_subclass(x.cls, '_signatures:IncompatibleSignatures')]
+                if not reach and not explicit:
+                    continue
+                n += 1
+                key = '%s|converted|call:%s' % (op, callee.key.split(':', 1)[1])
+                st = site_of(fi, cs.node)
+                ok = False
+                for tr, hs in es.try_chain(fi, cs.node):
+                    for h, names, rer in hs:
+                        if any(nm in ('ValueError', 'Exception', 'BaseException') for nm in names if nm):
+                            raised = [es.exc_class(fi, r_.exc) for r_ in ast.walk(h) if isinstance(r_, ast.Raise) and r_.exc is not None]
+                            if any(c_ and es.interp.exc_subclass(c_, '_signatures:IncompatibleSignatures') for c_ in raised):
+                                ok = True
+                why = ('reaches the validating construction in %s' % ', '.join(r.split(':', 1)[1] for r in reach[:2])) if reach else \
+                    'raises ValueError (%s)' % explicit[0].origin
+                if ok:
+                    check.holds(rule, st, '%s(...) %s: inside a try that turns ValueError into IncompatibleSignatures' % (callee.name, why), key=key)
+                else:
+                    check.violation(rule, st, '%s(...) %s, outside any try that turns ValueError into IncompatibleSignatures: a result with two parameters '
+                                    'of one name leaves %s as a plain ValueError' % (callee.name, why, fi.name), key=key,
+                                    witness="merge(s('a, *args, **kwargs'), s('b, a, *args, **kwargs')) raises ValueError('duplicate parameter name')")
+    check.floor(rule, 'ValueError-raising calls in merge/embed', n, 4)
